@@ -21,6 +21,7 @@ def dispatch (line : String) : String :=
   | "c05" :: args => c05 args
   | "c05p" :: args => c05p args
   | "c16" :: args => c16 args
+  | "c16p" :: args => c16p args
   | "c01" :: args => c01 args
   | "c18" :: args => c18 args
   | "c17" :: args => c17 args
